@@ -15,7 +15,7 @@ import torch
 from .programs import Built, as_int_list
 
 
-def recording(inner):
+def recording(inner, hook_scale=None):
     from torchjd.aggregation import Aggregator
 
     class Recording(Aggregator):
@@ -34,7 +34,17 @@ def recording(inner):
         def __str__(self):
             return f"Recording({self.inner})"
 
-    return Recording()
+    r = Recording()
+
+    # aggregator(J) means Module.__call__, hooks included: a forward hook records what the CALLER of the
+    # aggregator receives (and, when `hook_scale` is set, is a user hook that rescales the aggregation)
+    def _hook(mod, inp, out):
+        final = out if hook_scale is None else out * hook_scale
+        mod.calls[-1]["final"] = final.detach().clone()
+        return final
+
+    r.register_forward_hook(_hook)
+    return r
 
 
 def present(seq: list, how: str):
@@ -89,7 +99,7 @@ class BackwardRun:
 
     def __init__(self, scn: dict, rng: random.Random, dtype=torch.float64, aggregator=None,
                  retain: bool | None = None, how_inputs: str | None = None, default_inputs: bool = False,
-                 chunk="scn"):
+                 chunk="scn", hook_scale=None):
         from torchjd import backward
         from torchjd.aggregation import Constant
 
@@ -108,7 +118,7 @@ class BackwardRun:
         self.before_grads = {l: B.grad_flat(l) for l in self.leaves}
         w = torch.tensor([float(v) for v in scn["w"]], dtype=dtype)
         inner = aggregator if aggregator is not None else Constant(w)
-        self.agg = recording(inner)
+        self.agg = recording(inner, hook_scale=hook_scale)
         order = list(self.inputs)
         rng.shuffle(order)
         self.how = how_inputs or rng.choice(PRESENTATIONS)
@@ -162,6 +172,8 @@ class BackwardRun:
         """C01 (i): the matrix handed to the aggregator is TrueJac up to the order of the inputs."""
         if len(self.agg.calls) != 1:
             return [f"aggregator called {len(self.agg.calls)} times"], []
+        if "final" not in self.agg.calls[0]:
+            return ["the aggregator was not invoked through aggregator(J) (Module.__call__): its forward hooks did not run"], []
         m = self.agg.calls[0]["matrix"]
         rows = len(self.scn["w"])
         orders = match_layout(m, leaf_blocks(self.scn), rows)
@@ -172,7 +184,9 @@ class BackwardRun:
 
     def check_slices(self, orders) -> list[str]:
         """C01 (ii): every input received exactly its own slice of the aggregated vector."""
-        outv = self.agg.calls[0]["out"].reshape(-1)
+        if "final" not in self.agg.calls[0]:
+            return ["the aggregator was not invoked through aggregator(J) (Module.__call__): its forward hooks did not run"]
+        outv = self.agg.calls[0]["final"].reshape(-1)
         if not bool(torch.isfinite(outv).all()):
             return []          # a non-finite aggregation (degenerate matrix for that aggregator) says nothing about slicing
         sizes = {l: self.scn["prog"][l - 1]["size"] for l in self.inputs}
